@@ -95,6 +95,10 @@ def observations(rec, m):
                                         "raw": m.get("raw") if raw is not None else None}
     if m is not None and m.get("crashed") and rec["out"] == "Crashed":
         model_obs["out"] = "Crashed"
+    if "extras" in rec:
+        impl_obs["extras"] = rec["extras"]
+        if model_obs is not None:
+            model_obs["extras"] = m.get("extras")
     if "would" in rec:
         impl_obs["would"] = rec["would"]
         if model_obs is not None:
@@ -104,7 +108,7 @@ def observations(rec, m):
 
 def oracle_i(ctx, i, sub, rec, impl_obs, model_obs):
     if model_obs is not None and common.jdump(model_obs) != common.jdump(impl_obs):
-        which = [k for k in ("out", "loaded", "view", "db", "raw", "would")
+        which = [k for k in ("out", "loaded", "view", "db", "raw", "would", "extras")
                  if common.jdump(model_obs.get(k)) != common.jdump(impl_obs.get(k))]
         ctx.disagree("+".join(which), sub, impl_obs, model_obs, note="step %d %s" % (i, rec.get("detail", "")))
         return False
@@ -126,6 +130,8 @@ def check_case(ctx, case, steps, msteps):
         ctx.hist("cmd=%s/%s" % (kind_of(cmd), rec["out"]))
         if cmd.get("noaction"):
             ctx.hist("dry-run")
+        if cmd.get("ext"):
+            ctx.hist("declare with external files/%s" % rec["out"])
         if "error" in real:
             ctx.fail("reader_total", sub, impl_obs, model_obs, note="fresh reader raised %s" % (real["error"],))
             return
